@@ -12,7 +12,7 @@
     equivalence ([neq_laws]); instances: [Qeq_bool], and [neq_abs] = what areNearlyEqual computes on values that
     are identical or more than one ulp apart. *)
 From Coq Require Import String List Bool ZArith QArith Qabs Arith Permutation.
-From LC Require Import EqualsDefs EqualsSpec EqualsProofs EqualsSimProofs EqualsCorrect EqualsAsIs EqualsMut EqualsSummary.
+From LC Require Import EqualsDefs EqualsSpec EqualsProofs EqualsSimProofs EqualsCorrect EqualsAsIs EqualsMut EqualsSummary EqualsExt.
 Import ListNotations.
 Local Close Scope Q_scope.
 
@@ -233,6 +233,14 @@ Theorem C10_neq_abs_far : forall a b : Q,
   (a == b \/ (1 # 4503599627370496) < Qabs (a - b))%Q -> neq_abs a b = Qeq_bool a b.
 Proof. exact EqualsAsIs.neq_abs_far. Qed.
 Print Assumptions C10_neq_abs_far.
+
+(** equals applies the comparison only to pairs of one value from each operand; so on trees whose exponents and
+    multipliers are pairwise identical or more than DBL_EPSILON apart ([separated]) the model instance that runs
+    against the code ([neq_abs]) IS the instance the theorems speak about ([Qeq_bool]), whatever the switches *)
+Theorem C10_equals_separated : forall fl a b, separated (doubles_e a) (doubles_e b) ->
+  eq_entity neq_abs fl a b = eq_entity Qeq_bool fl a b.
+Proof. exact EqualsExt.equals_separated. Qed.
+Print Assumptions C10_equals_separated.
 
 (** below DBL_EPSILON it is not an equivalence, and changes of a multiplier are not seen (known finding C10-abs-epsilon) *)
 Theorem C10_neq_abs_not_transitive :
